@@ -260,6 +260,10 @@ func peekRecord(args []string) error {
 	kindsOf := "NEX"
 	for tr := 0; tr < ntraces; tr++ {
 		n := rng.Intn(maxlen + 1)
+		long := tr%40 == 7 // a long stream with runs of hundreds of consecutive elided tokens (beyond any 8-bit counter)
+		if long {
+			n = 300 + rng.Intn(400)
+		}
 		b := make([]byte, n+1)
 		ks := make([]string, n+1)
 		bias := rng.Intn(3)
@@ -267,6 +271,9 @@ func peekRecord(args []string) error {
 			k := kindsOf[rng.Intn(3)]
 			if bias == 1 && rng.Intn(2) == 0 {
 				k = 'E'
+			}
+			if long && i%290 > 5 {
+				k = "EX"[rng.Intn(2)]
 			}
 			b[i] = k
 			ks[i] = string(k)
